@@ -1154,3 +1154,377 @@ Proof.
   destruct (step_qeff _ _ _ _ H) as [[Eq [En Es]] | [[i [d [Eq [En [Ei _]]]]] | [[i [Eq [En Es]]] | [x [Eq [En Es]]]]]]; auto.
   right. split; [exact En|]. exists i, d. auto.
 Qed.
+(* ------------------------------------------------------------------------------------------- *)
+(* mutual exclusion on mutex_ and no lost wake-up                                               *)
+
+Definition thold (p : tpc_t) : bool :=
+  match p with TWaitGo _ | TUnlockExec _ | TExitUnlock => true | _ => false end.
+Definition shold (o : op) : bool := match spc o with SEnqNotify | SEnqUnlock => true | _ => false end.
+Definition chold (o : op) : bool :=
+  match cpc o with CUnlockRequeue | CEnqNotify | CEnqUnlock | CUnlockDone => true | _ => false end.
+Definition dhold (d : dpc_t) : bool := match d with DNotify | DUnlock => true | _ => false end.
+Definition oh (o : op) : nat := (b2n (shold o) + b2n (chold o))%nat.
+Definition hsum (os : list op) : nat := fold_right (fun o acc => (oh o + acc)%nat) 0%nat os.
+(* about to call cv_.notify_one() after inserting at the head *)
+Definition pend (o : op) : bool :=
+  match spc o with SEnqNotify => true | _ => false end || match cpc o with CEnqNotify => true | _ => false end.
+Definition pcount (os : list op) : nat := fold_right (fun o acc => (b2n (pend o) + acc)%nat) 0%nat os.
+
+Arguments hsum : simpl never.
+Arguments pcount : simpl never.
+Arguments oh : simpl never.
+
+(* number of threads inside a critical section of mutex_ = 1 if it is locked, 0 otherwise *)
+Definition MInv (s : st) : Prop :=
+  (b2n (thold (tpc s)) + hsum (ops s) + b2n (dhold (dpc s)) = b2n (mlocked s))%nat.
+
+Lemma hsum_set_nth : forall os i o o', nth_error os i = Some o ->
+  (hsum (set_nth i o' os) + oh o = hsum os + oh o')%nat.
+Proof.
+  induction os as [|a os IH]; intros [|i] o o' H; unfold hsum in *; cbn [fold_right set_nth nth_error] in *; try discriminate.
+  - inversion H; subst. lia.
+  - specialize (IH i o o' H). lia.
+Qed.
+
+Lemma pcount_set_nth : forall os i o o', nth_error os i = Some o ->
+  (pcount (set_nth i o' os) + b2n (pend o) = pcount os + b2n (pend o'))%nat.
+Proof.
+  induction os as [|a os IH]; intros [|i] o o' H; unfold pcount in *; cbn [fold_right set_nth nth_error] in *; try discriminate.
+  - inversion H; subst. lia.
+  - specialize (IH i o o' H). lia.
+Qed.
+
+Lemma pcount_ge : forall os i o, nth_error os i = Some o -> (b2n (pend o) <= pcount os)%nat.
+Proof.
+  induction os as [|a os IH]; intros [|i] o H; unfold pcount in *; cbn [fold_right nth_error] in *; try discriminate.
+  - inversion H; subst. lia.
+  - specialize (IH i o H). lia.
+Qed.
+
+Lemma thold_notify : forall p, thold (notify p) = thold p.
+Proof. intros [ | | | | | | | | | ]; reflexivity. Qed.
+
+Lemma decide_m : forall s, mlocked (decide s) = mlocked s /\ dpc (decide s) = dpc s /\ ops (decide s) = ops s /\ thold (tpc (decide s)) = true.
+Proof.
+  intros s. unfold decide. destruct (stopflag s); [cbn; auto|]. destruct (q s); [cbn; auto|]. destruct (_ <=? _); cbn; auto.
+Qed.
+
+Ltac m_op Hn :=
+  unfold MInv in *; cbn;
+  match goal with |- context [hsum (set_nth ?i ?o' ?os)] => pose proof (hsum_set_nth os i _ o' Hn) as Hsum end;
+  unfold oh, shold, chold, b2n in *; cbn in *;
+  rewrite ?thold_notify in *;
+  repeat match goal with H : spc _ = _ |- _ => rewrite H in * | H : cpc _ = _ |- _ => rewrite H in * | H : mlocked _ = _ |- _ => rewrite H in * end;
+  cbn in *; try lia.
+
+Lemma cb_minv : forall fin i o s s' evs, MInv s -> nth_error (ops s) i = Some o ->
+  (cpc (fin (set_cpc o CFin)) = CFin /\ shold (fin (set_cpc o CFin)) = shold o) ->
+  step_cb fin i o s = Some (s', evs) -> MInv s'.
+Proof.
+  intros fin i o s s' evs HM Hn Hfin H. unfold step_cb in H.
+  destruct (cpc o) eqn:Hc; try discriminate.
+  - destruct (mlocked s) eqn:Hm; [discriminate|]. destruct (now s <? dueT o); [destruct (linkedb i (q s))|];
+      inversion H; subst; clear H; m_op Hn.
+  - inversion H; subst; clear H; m_op Hn. destruct (mlocked s); lia.
+  - destruct (mlocked s) eqn:Hm; [discriminate|]. inversion H; subst; clear H.
+    destruct (at_head (dueT o, i) (q s)); m_op Hn.
+  - inversion H; subst; clear H; m_op Hn.
+  - inversion H; subst; clear H. unfold MInv in *. cbn.
+    pose proof (hsum_set_nth (ops s) i _ (fin (set_cpc o CFin)) Hn) as Hsum.
+    destruct Hfin as [F1 F2]. unfold oh, chold in *. rewrite F1, F2 in Hsum. cbn in Hsum. rewrite Hc in Hsum.
+    unfold b2n in *. cbn in *. destruct (mlocked s); lia.
+  - inversion H; subst; clear H. unfold MInv in *. cbn.
+    pose proof (hsum_set_nth (ops s) i _ (fin (set_cpc o CFin)) Hn) as Hsum.
+    destruct Hfin as [F1 F2]. unfold oh, chold in *. rewrite F1, F2 in Hsum. cbn in Hsum. rewrite Hc in Hsum.
+    unfold b2n in *. cbn in *. destruct (mlocked s); lia.
+Qed.
+
+Lemma cb_minv_s : forall i o s s' evs, MInv s -> nth_error (ops s) i = Some o -> spc o = SCb ->
+  step_cb (fun o' => set_spc o' SEnqLock) i o s = Some (s', evs) -> MInv s'.
+Proof.
+  intros i o s s' evs HM Hn Hs H. eapply cb_minv; eauto. split; [reflexivity|]. unfold shold. cbn. rewrite Hs. reflexivity.
+Qed.
+
+Lemma cb_minv_k : forall i o s s' evs, MInv s -> nth_error (ops s) i = Some o ->
+  step_cb (fun o' => set_kpc o' KCompleted) i o s = Some (s', evs) -> MInv s'.
+Proof.
+  intros i o s s' evs HM Hn H. eapply cb_minv; eauto. split; reflexivity.
+Qed.
+
+Lemma minv_step : forall s t s' evs, Inv s -> MInv s -> step t s = Some (s', evs) -> MInv s'.
+Proof.
+  intros s t s' evs HI HM H. unfold step in H.
+  destruct (Nat.eqb t 0).
+  { unfold step_timer, with_op in H. destruct (tpc s) as [ |dl|dl ntf|i|i|i w|i|i| | ] eqn:Et.
+    - destruct (mlocked s) eqn:Hm; [discriminate|]. inversion H; subst; clear H.
+      destruct (decide_m (set_m s true)) as [E1 [E2 [E3 E4]]]. unfold MInv in *. rewrite E1, E2, E3, E4. rewrite Et, Hm in HM. cbn in *. lia.
+    - inversion H; subst; clear H. unfold MInv in *. rewrite Et in HM. cbn in *. destruct (mlocked s); cbn in *; lia.
+    - destruct (mlocked s) eqn:Hm; [discriminate|]. destruct (_ || _); [|discriminate]. inversion H; subst; clear H.
+      destruct (decide_m (set_m s true)) as [E1 [E2 [E3 E4]]]. unfold MInv in *. rewrite E1, E2, E3, E4. rewrite Et, Hm in HM. cbn in *. lia.
+    - destruct (nth_error (ops s) i) as [o|] eqn:Hn; [|discriminate]. inversion H; subst; clear H.
+      unfold MInv in *. rewrite Et in HM. cbn in *. destruct (cb o); destruct (mlocked s); cbn in *; lia.
+    - destruct (nth_error (ops s) i) as [o|] eqn:Hn; [|discriminate]. destruct (slock o); [discriminate|].
+      unfold MInv in HM; rewrite Et in HM. destruct (cb o); inversion H; subst; clear H; m_op Hn.
+    - destruct (nth_error (ops s) i) as [o|] eqn:Hn; [|discriminate]. inversion H; subst; clear H.
+      unfold MInv in HM; rewrite Et in HM. destruct w; m_op Hn.
+    - destruct (nth_error (ops s) i) as [o|] eqn:Hn; [|discriminate]. destruct (cb o); try discriminate.
+      inversion H; subst; clear H. unfold MInv in HM; rewrite Et in HM. m_op Hn.
+    - destruct (nth_error (ops s) i) as [o|] eqn:Hn; [|discriminate]. inversion H; subst; clear H.
+      unfold MInv in HM; rewrite Et in HM. m_op Hn.
+    - inversion H; subst; clear H. unfold MInv in *. rewrite Et in HM. cbn in *. destruct (mlocked s); cbn in *; lia.
+    - discriminate. }
+  destruct (Nat.leb t (nops s)).
+  { unfold step_starter in H. remember (t - 1)%nat as i. clear Heqi.
+    destruct (nth_error (ops s) i) as [o|] eqn:Hn; [|discriminate].
+    destruct (spc o) eqn:Hs.
+    - inversion H; subst; clear H; m_op Hn.
+    - assert (Hci : cpc o = CIdle).
+      { destruct (oi_h1 _ _ _ _ _ (proj2 HI i o Hn)) as [Hx _]; [unfold early; rewrite Hs; reflexivity|].
+        unfold cidle in Hx. destruct (cpc o); try discriminate; reflexivity. }
+      destruct (sreq o); [|destruct (slock o); [discriminate|]]; inversion H; subst; clear H; m_op Hn.
+    - inversion H; subst; clear H; m_op Hn.
+    - eapply (cb_minv_s i o s s' evs HM Hn Hs H).
+    - destruct (mlocked s) eqn:Hm; [discriminate|]. inversion H; subst; clear H.
+      destruct (at_head (dueT o, i) (q s)); m_op Hn.
+    - inversion H; subst; clear H; m_op Hn.
+    - inversion H; subst; clear H; m_op Hn. destruct (mlocked s); lia.
+    - discriminate. }
+  destruct (Nat.leb t (2 * nops s)).
+  { unfold step_stopper in H. remember (t - 1 - nops s)%nat as i. clear Heqi.
+    destruct (nth_error (ops s) i) as [o|] eqn:Hn; [|discriminate].
+    destruct (kpc o) eqn:Hk.
+    - destruct (sreq o); [|destruct (slock o); [discriminate|]; destruct (cb o)]; inversion H; subst; clear H; m_op Hn.
+    - assert (Hci : cpc o = CIdle).
+      { destruct (oi_h2 _ _ _ _ _ (proj2 HI i o Hn) Hk) as [_ [Hx _]].
+        unfold cidle in Hx. destruct (cpc o); try discriminate; reflexivity. }
+      inversion H; subst; clear H; m_op Hn.
+    - eapply (cb_minv_k i o s s' evs HM Hn H).
+    - inversion H; subst; clear H; m_op Hn.
+    - destruct (slock o); [discriminate|]. inversion H; subst; clear H; m_op Hn.
+    - inversion H; subst; clear H; m_op Hn.
+    - discriminate. }
+  destruct (Nat.eqb t (2 * nops s + 1)).
+  { unfold step_destroyer in H. unfold MInv in *. destruct (dpc s) eqn:Ed.
+    - destruct (mlocked s) eqn:Hm; [discriminate|]. destruct (all_completed s); [|discriminate]. inversion H; subst; clear H. cbn in *. lia.
+    - inversion H; subst; clear H. cbn in *. rewrite thold_notify. lia.
+    - inversion H; subst; clear H. cbn in *. destruct (mlocked s); cbn in *; lia.
+    - destruct (tpc s) eqn:Et; try discriminate. inversion H; subst; clear H. cbn in *. rewrite Et. cbn. lia.
+    - discriminate. }
+  destruct (Nat.eqb t (2 * nops s + 2)).
+  { unfold step_poke in H. inversion H; subst; clear H. unfold MInv in *. cbn. rewrite thold_notify. exact HM. }
+  unfold step_clock in H. inversion H; subst; clear H. exact HM.
+Qed.
+
+(* the timer thread's deadline is never later than the due time of the current head *)
+Definition wcond (dl : option Z) (qq : list timer) : Prop :=
+  match qq with [] => True | x :: _ => match dl with Some d => d <= due x | None => False end end.
+
+Definition WInv (s : st) : Prop :=
+  match tpc s with
+  | TWaitGo dl => (0 < pcount (ops s))%nat \/ wcond dl (q s)
+  | TWaiting dl false => (0 < pcount (ops s))%nat \/ wcond dl (q s)
+  | _ => True
+  end.
+
+Lemma wcond_insert_nothead : forall dl x l, at_head x l = false -> wcond dl l -> wcond dl (insert_timed x l).
+Proof.
+  intros dl x [|h tl] Ha Hw; cbn in Ha; [discriminate|]. cbn [insert_timed]. rewrite Ha.
+  destruct tl as [|n tl]; cbn [walk_insert]; [exact Hw|]. destruct (due n <=? due x); exact Hw.
+Qed.
+
+Lemma wcond_remove : forall dl i l, sorted_due l -> wcond dl l -> wcond dl (heap_remove i l).
+Proof.
+  intros dl i [|h tl] Hs Hw; [exact Hw|]. cbn [heap_remove]. destruct (Nat.eqb (id h) i); [|exact Hw].
+  destruct tl as [|y tl]; [exact I|]. cbn in *. destruct dl as [d|]; [|contradiction].
+  apply sorted_due_cons in Hs. destruct Hs as [Hf _]. inversion Hf; subst. lia.
+Qed.
+
+(* what a step of a thread other than the timer thread does to the things WInv looks at *)
+Definition weff (s s' : st) : Prop :=
+  (tpc s' = notify (tpc s) /\ q s' = q s /\ (pcount (ops s') = pcount (ops s) \/ (0 < hsum (ops s))%nat)) \/
+  (tpc s' = tpc s /\ (pcount (ops s) <= pcount (ops s'))%nat /\
+     (q s' = q s \/
+      (mlocked s = false /\ exists x, q s' = insert_timed x (q s) /\ (at_head x (q s) = true -> (0 < pcount (ops s'))%nat)) \/
+      (mlocked s = false /\ exists i, q s' = heap_remove i (q s)))).
+
+Ltac w_plain Hn :=
+  right; split; [reflexivity|]; split;
+    [ cbn; match goal with |- context [pcount (set_nth ?i ?o' ?os)] => pose proof (pcount_set_nth os i _ o' Hn) as Hp end;
+      unfold pend, b2n in *; cbn in *;
+      repeat match goal with H : spc _ = _ |- _ => rewrite H in * | H : cpc _ = _ |- _ => rewrite H in * end; cbn in *;
+      try (destruct (cpc _); cbn in *; lia); try (destruct (spc _); cbn in *; lia); try lia
+    | left; reflexivity ].
+
+Lemma cb_weff : forall fin i o s s' evs, nth_error (ops s) i = Some o ->
+  pend (fin (set_cpc o CFin)) = pend (set_cpc o CFin) ->
+  step_cb fin i o s = Some (s', evs) -> weff s s'.
+Proof.
+  intros fin i o s s' evs Hn Hfin H. unfold step_cb in H.
+  destruct (cpc o) eqn:Hc; try discriminate.
+  - destruct (mlocked s) eqn:Hm; [discriminate|]. destruct (now s <? dueT o); [destruct (linkedb i (q s))|];
+      inversion H; subst; clear H; try (w_plain Hn).
+    right. split; [reflexivity|]. split.
+    + cbn. pose proof (pcount_set_nth (ops s) i _ (set_cpc (set_due o (now s)) CUnlockRequeue) Hn) as Hp.
+      unfold pend, b2n in *. cbn in *. rewrite Hc in *. cbn in *. lia.
+    + right. right. split; [exact Hm|]. exists i. reflexivity.
+  - inversion H; subst; clear H; w_plain Hn.
+  - destruct (mlocked s) eqn:Hm; [discriminate|]. inversion H; subst; clear H.
+    right. split; [reflexivity|].
+    pose proof (pcount_set_nth (ops s) i _ (set_cpc (set_eseq o (nenq s)) (if at_head (dueT o, i) (q s) then CEnqNotify else CEnqUnlock)) Hn) as Hp.
+    unfold pend, b2n in Hp. cbn in Hp. rewrite Hc in Hp. cbn [ops put do_insert set_m set_nenq set_q q].
+    split.
+    + destruct (at_head (dueT o, i) (q s)); cbn in Hp; destruct (spc o); cbn in Hp; lia.
+    + right. left. split; [exact Hm|]. exists (dueT o, i). split; [reflexivity|]. intros Ha. rewrite Ha.
+      pose proof (pcount_ge _ i _ (nth_set_nth_eq (ops s) i (set_cpc (set_eseq o (nenq s)) CEnqNotify) o Hn)) as Hg.
+      unfold pend in Hg. cbn in Hg. rewrite orb_true_r in Hg. cbn in Hg. lia.
+  - inversion H; subst; clear H. left. split; [reflexivity|]. split; [reflexivity|]. right.
+    pose proof (hsum_set_nth (ops s) i _ o Hn) as Hh. unfold hsum in *.
+    clear - Hn Hc. revert i Hn. induction (ops s) as [|a os IH]; intros [|i] Hn; cbn in *; try discriminate.
+    + inversion Hn; subst. unfold oh, chold. rewrite Hc. unfold b2n. destruct (shold o); cbn; lia.
+    + specialize (IH i Hn). lia.
+  - inversion H; subst; clear H. right. split; [reflexivity|]. split; [|left; reflexivity].
+    cbn. pose proof (pcount_set_nth (ops s) i _ (fin (set_cpc o CFin)) Hn) as Hp. rewrite Hfin in Hp.
+    unfold pend, b2n in *. cbn in *. rewrite Hc in *. destruct (spc o); cbn in *; lia.
+  - inversion H; subst; clear H. right. split; [reflexivity|]. split; [|left; reflexivity].
+    cbn. pose proof (pcount_set_nth (ops s) i _ (fin (set_cpc o CFin)) Hn) as Hp. rewrite Hfin in Hp.
+    unfold pend, b2n in *. cbn in *. rewrite Hc in *. destruct (spc o); cbn in *; lia.
+Qed.
+
+Lemma hsum_pos : forall os i o, nth_error os i = Some o -> (0 < oh o)%nat -> (0 < hsum os)%nat.
+Proof.
+  induction os as [|a os IH]; intros [|i] o H Hp; unfold hsum in *; cbn [fold_right nth_error] in *; try discriminate.
+  - inversion H; subst. lia.
+  - specialize (IH i o H Hp). lia.
+Qed.
+
+(* steps of every thread except the timer thread *)
+Lemma step_weff : forall s t s' evs, Inv s -> Nat.eqb t 0 = false -> step t s = Some (s', evs) -> weff s s'.
+Proof.
+  intros s t s' evs HI Ht H. unfold step in H. rewrite Ht in H.
+  destruct (Nat.leb t (nops s)).
+  { unfold step_starter in H. remember (t - 1)%nat as i. clear Heqi.
+    destruct (nth_error (ops s) i) as [o|] eqn:Hn; [|discriminate].
+    destruct (spc o) eqn:Hs.
+    - inversion H; subst; clear H; w_plain Hn.
+    - assert (Hci : cpc o = CIdle).
+      { destruct (oi_h1 _ _ _ _ _ (proj2 HI i o Hn)) as [Hx _]; [unfold early; rewrite Hs; reflexivity|].
+        unfold cidle in Hx. destruct (cpc o); try discriminate; reflexivity. }
+      destruct (sreq o); [|destruct (slock o); [discriminate|]]; inversion H; subst; clear H; w_plain Hn.
+    - inversion H; subst; clear H; w_plain Hn.
+    - eapply (cb_weff _ i o s s' evs Hn); [|exact H]. unfold pend. cbn. rewrite Hs. reflexivity.
+    - destruct (mlocked s) eqn:Hm; [discriminate|]. inversion H; subst; clear H.
+      right. split; [reflexivity|].
+      pose proof (pcount_set_nth (ops s) i _ (set_spc (set_eseq o (nenq s)) (if at_head (dueT o, i) (q s) then SEnqNotify else SEnqUnlock)) Hn) as Hp.
+      unfold pend, b2n in Hp. cbn in Hp. rewrite Hs in Hp. cbn [ops put do_insert set_m set_nenq set_q q].
+      split.
+      + destruct (at_head (dueT o, i) (q s)); cbn in Hp; destruct (cpc o); cbn in Hp; lia.
+      + right. left. split; [exact Hm|]. exists (dueT o, i). split; [reflexivity|]. intros Ha. rewrite Ha.
+        pose proof (pcount_ge _ i _ (nth_set_nth_eq (ops s) i (set_spc (set_eseq o (nenq s)) SEnqNotify) o Hn)) as Hg.
+        unfold pend in Hg. cbn in Hg. lia.
+    - inversion H; subst; clear H. left. split; [reflexivity|]. split; [reflexivity|]. right.
+      eapply hsum_pos; [exact Hn|]. unfold oh, shold. rewrite Hs. cbn. lia.
+    - inversion H; subst; clear H; w_plain Hn.
+    - discriminate. }
+  destruct (Nat.leb t (2 * nops s)).
+  { unfold step_stopper in H. remember (t - 1 - nops s)%nat as i. clear Heqi.
+    destruct (nth_error (ops s) i) as [o|] eqn:Hn; [|discriminate].
+    destruct (kpc o) eqn:Hk.
+    - destruct (sreq o); [|destruct (slock o); [discriminate|]; destruct (cb o)]; inversion H; subst; clear H; w_plain Hn.
+    - assert (Hci : cpc o = CIdle).
+      { destruct (oi_h2 _ _ _ _ _ (proj2 HI i o Hn) Hk) as [_ [Hx _]].
+        unfold cidle in Hx. destruct (cpc o); try discriminate; reflexivity. }
+      inversion H; subst; clear H; w_plain Hn.
+    - eapply (cb_weff _ i o s s' evs Hn); [|exact H]. reflexivity.
+    - inversion H; subst; clear H; w_plain Hn.
+    - destruct (slock o); [discriminate|]. inversion H; subst; clear H; w_plain Hn.
+    - inversion H; subst; clear H; w_plain Hn.
+    - discriminate. }
+  destruct (Nat.eqb t (2 * nops s + 1)).
+  { unfold step_destroyer in H. destruct (dpc s) eqn:Ed.
+    - destruct (mlocked s) eqn:Hm; [discriminate|]. destruct (all_completed s); [|discriminate]. inversion H; subst; clear H.
+      right. cbn. split; [reflexivity|]. split; [lia|]. left. reflexivity.
+    - inversion H; subst; clear H. left. cbn. auto.
+    - inversion H; subst; clear H. right. cbn. split; [reflexivity|]. split; [lia|]. left. reflexivity.
+    - destruct (tpc s); try discriminate. inversion H; subst; clear H. right. cbn. split; [reflexivity|]. split; [lia|]. left. reflexivity.
+    - discriminate. }
+  destruct (Nat.eqb t (2 * nops s + 2)).
+  { unfold step_poke in H. inversion H; subst; clear H. left. cbn. auto. }
+  unfold step_clock in H. inversion H; subst; clear H. right. cbn. split; [reflexivity|]. split; [lia|]. left. reflexivity.
+Qed.
+
+Lemma decide_w : forall s0, WInv (decide s0).
+Proof.
+  intros s0. unfold decide, WInv. destruct (stopflag s0); [exact I|].
+  destruct (q s0) as [|x tl] eqn:E; cbn; [rewrite E; right; exact I|].
+  destruct (due x <=? now s0); cbn; [exact I|]. rewrite E. right. cbn. lia.
+Qed.
+
+Lemma winv_step : forall s t s' evs, Inv s -> MInv s -> WInv s -> step t s = Some (s', evs) -> WInv s'.
+Proof.
+  intros s t s' evs HI HM HW H. destruct (Nat.eqb t 0) eqn:Ht.
+  { unfold step in H. rewrite Ht in H. unfold step_timer, with_op in H.
+    destruct (tpc s) as [ |dl|dl ntf|i|i|i w|i|i| | ] eqn:Et.
+    - destruct (mlocked s); [discriminate|]. inversion H; subst; clear H. apply decide_w.
+    - inversion H; subst; clear H. unfold WInv in *. rewrite Et in HW. cbn. exact HW.
+    - destruct (mlocked s); [discriminate|]. destruct (_ || _); [|discriminate]. inversion H; subst; clear H. apply decide_w.
+    - destruct (nth_error (ops s) i) as [o|]; [|discriminate]. inversion H; subst; clear H. unfold WInv. cbn. destruct (cb o); exact I.
+    - destruct (nth_error (ops s) i) as [o|]; [|discriminate]. destruct (slock o); [discriminate|].
+      destruct (cb o); inversion H; subst; clear H; exact I.
+    - destruct (nth_error (ops s) i) as [o|]; [|discriminate]. inversion H; subst; clear H. unfold WInv. cbn. destruct w; exact I.
+    - destruct (nth_error (ops s) i) as [o|]; [|discriminate]. destruct (cb o); try discriminate. inversion H; subst; clear H. exact I.
+    - destruct (nth_error (ops s) i) as [o|]; [|discriminate]. inversion H; subst; clear H. exact I.
+    - inversion H; subst; clear H. exact I.
+    - discriminate. }
+  pose proof (step_weff _ _ _ _ HI Ht H) as Hw. pose proof HI as [[Hs _] _].
+  unfold WInv in *. unfold MInv in HM.
+  destruct Hw as [[Et [Eq Hp]] | [Et [Hp Hq]]].
+  - (* a notify *)
+    rewrite Et, Eq. destruct (tpc s) as [ |dl|dl ntf| | | | | | | ] eqn:Etp; cbn; try exact I.
+    + (* the timer thread holds the mutex between deciding to wait and waiting: nobody else can be at a notify *)
+      destruct Hp as [Hp|Hp]; [rewrite Hp; exact HW|]. exfalso. cbn in HM. unfold b2n in HM. destruct (mlocked s), (dhold (dpc s)); lia.
+  - rewrite Et. destruct (tpc s) as [ |dl|dl ntf| | | | | | | ] eqn:Etp; try exact I.
+    + destruct HW as [HW|HW]; [left; lia|]. destruct Hq as [Eq | [[Hm _] | [Hm _]]].
+      * rewrite Eq. right. exact HW.
+      * exfalso. cbn in HM. rewrite Hm in HM. unfold b2n in HM. destruct (dhold (dpc s)); lia.
+      * exfalso. cbn in HM. rewrite Hm in HM. unfold b2n in HM. destruct (dhold (dpc s)); lia.
+    + destruct ntf; [exact I|]. destruct HW as [HW|HW]; [left; lia|]. destruct Hq as [Eq | [[Hm [x [Eq Hh]]] | [Hm [i Eq]]]].
+      * rewrite Eq. right. exact HW.
+      * rewrite Eq. destruct (at_head x (q s)) eqn:Ea; [left; apply Hh; reflexivity | right; apply wcond_insert_nothead; assumption].
+      * rewrite Eq. right. apply wcond_remove; assumption.
+Qed.
+
+Lemma mw_run : forall now0 specs sched,
+  let s := fst (run step sched (init now0 specs, [])) in Inv s /\ MInv s /\ WInv s.
+Proof.
+  intros now0 specs sched.
+  apply (run_invariant_state _ _ _ step (fun s => Inv s /\ MInv s /\ WInv s)).
+  - intros s t s' ev [HI [HM HW]] Hs. split; [eapply step_inv; eauto|]. split; [eapply minv_step; eauto | eapply winv_step; eauto].
+  - split; [apply init_inv|]. split; [|exact I].
+    unfold MInv. cbn. assert (hsum (map init_op specs) = 0%nat) as ->; [|reflexivity].
+    induction specs as [|a l IH]; [reflexivity|]. unfold hsum in *. cbn. rewrite IH. reflexivity.
+Qed.
+
+(* at most one thread is inside a critical section of mutex_, and then the mutex is locked *)
+Theorem mutual_exclusion : forall now0 specs sched,
+  let s := fst (run step sched (init now0 specs, [])) in
+  (b2n (thold (tpc s)) + hsum (ops s) + b2n (dhold (dpc s)) = b2n (mlocked s))%nat.
+Proof. intros. apply (mw_run now0 specs sched). Qed.
+
+(* no lost wake-up: while the timer thread is blocked in its wait and has not been notified, either a
+   thread that just inserted a new head still holds the mutex and is about to call notify_one, or the
+   timer thread's deadline is not later than the due time of the current head -- it never sleeps past
+   the moment the head (in particular a cancelled, re-queued operation) becomes due *)
+Theorem no_lost_wakeup : forall now0 specs sched dl,
+  let s := fst (run step sched (init now0 specs, [])) in
+  tpc s = TWaiting dl false ->
+  (exists i o, nth_error (ops s) i = Some o /\ pend o = true) \/
+  match q s with [] => True | x :: _ => exists d, dl = Some d /\ d <= due x end.
+Proof.
+  intros now0 specs sched dl s Et. destruct (mw_run now0 specs sched) as [_ [_ HW]]. fold s in HW.
+  unfold WInv in HW. rewrite Et in HW. destruct HW as [HW|HW].
+  - left. clear - HW. induction (ops s) as [|a os IH]; unfold pcount in *; cbn in HW; [lia|].
+    destruct (pend a) eqn:E.
+    + exists 0%nat, a. auto.
+    + cbn in HW. destruct (IH HW) as [i [o [H1 H2]]]. exists (S i), o. auto.
+  - right. unfold wcond in HW. destruct (q s); [exact I|]. destruct dl as [d|]; [eauto | contradiction].
+Qed.
